@@ -119,6 +119,11 @@ def _verify_instance(eng: Engine, c: Contract, src: source.FuncSrc, prop: str, i
 		fn.inputs[str(v.term)] = gt  # type: ignore[assignment]
 	for r, t in clause_terms(eng, fn, st, c.requires):
 		st.assume(t)
+	for k, expr in c.lets.items():
+		lv = Ev(eng, fn, st, Oracle([]), 'spec').eval(ast.parse(expr, mode='eval').body)
+		lc = eng.fresh(lv.ty, f'let_{k}')  # a named constant keeps the queries small
+		st.assume(lc.term == lv.term)
+		st.env[k] = lc
 	eng.oblige(fn, 'cover:requires', st, None, ' and '.join(c.requires) or 'True', src.lineno, expect='sat')
 	old = st.copy()
 	run_hints(eng, fn, st, c.hints_entry)
